@@ -37,7 +37,7 @@ class Gen:
             kinds = ["atom"]
         k = r.choice(kinds + ["atom"])
         if k == "atom":
-            return r.choice([("int", "i32"), ("int", "i32"), ("int", "u8"), ("int", "i64"), ("bool",), ("string",), ("string",), ("strref",), ("char",), ("f64",)])
+            return r.choice([("int", "i32"), ("int", "i32"), ("int", "u8"), ("int", "i64"), ("bool",), ("string",), ("string",), ("strref",), ("char",), ("f64",), ("po",)])
         if k == "option":
             return ("option", self.gen_type(depth - 1))
         if k == "result":
@@ -89,6 +89,8 @@ class Gen:
             return "char"
         if k == "f64":
             return "f64"
+        if k == "po":
+            return "Po"
         if k == "option":
             return "Option<%s>" % self.rust_type(t[1])
         if k == "result":
@@ -140,6 +142,8 @@ class Gen:
             return ("chr", r.choice("abxyz09 é'"))
         if k == "f64":
             return ("dec", r.choice([-250, -100, 0, 25, 50, 100, 150, 175, 200, 1000]))
+        if k == "po":
+            return ("adt", "Po", [], [("int", r.choice([0, 1, 2, 3])), ("int", r.choice([0, 1, 2, 3]))], "Po", "tuple")
         if k == "option":
             if r.random() < 0.3:
                 return ("adt", "None", [], [], "Option", "unit")
@@ -219,6 +223,8 @@ class Gen:
                 ks.pop()
                 vs.pop()
             return ("map", ks, vs)
+        if k == "adt" and t[0] == "po":
+            return ("adt", "Po", [], [("int", max(0, v[3][0][1] + r.choice([-1, 0, 1]))), ("int", max(0, v[3][1][1] + r.choice([-1, 0, 1])))], "Po", "tuple")
         if k == "adt":
             if t[0] in ("option", "result", "enum") and r.random() < 0.25:
                 return self.gen_val(t)
@@ -248,6 +254,8 @@ class Gen:
             return rust_chr(v[1])
         if k == "f64":
             return dec_str(v[1])
+        if k == "po":
+            return "Po(%d, %d)" % (v[3][0][1], v[3][1][1])
         if k == "option":
             return "None" if v[1] == "None" else "Some(%s)" % self.rust_expr(v[3][0], t[1])
         if k == "result":
@@ -381,9 +389,25 @@ class PatGen:
             return dec_str(v[1])
         raise ValueError(t)
 
+    def po_pat(self, v):
+        r = self.rng
+        f = r.choice(["eq", "ne", "lt", "le", "gt", "ge", "lt", "ge"])
+        if self.forms:
+            f = r.choice([x for x in ["eq", "ne", "lt", "le", "gt", "ge"] if x in self.forms] or ["eq"])
+        self.use(f)
+        a, b = v[3][0][1], v[3][1][1]
+        # a bound that is equal, comparable or incomparable (product order)
+        da, db = r.choice([(0, 0), (1, 1), (-1, -1), (1, -1), (-1, 1), (1, 0), (0, -1)])
+        w = ("adt", "Po", [], [("int", max(0, a + da)), ("int", max(0, b + db))], "Po", "tuple")
+        e = "Po(%d, %d)" % (w[3][0][1], w[3][1][1])
+        self.mval(e, w)
+        return {"eq": "== ", "ne": "!= ", "lt": "< ", "le": "<= ", "gt": "> ", "ge": ">= "}[f] + e
+
     def atom_pat(self, v, t, by_ref, at_root=False):
         r = self.rng
         k = t[0]
+        if k == "po":
+            return self.po_pat(v)
         forms = ["simple", "eq", "ne", "wild"]
         if k in ("int", "f64", "char"):
             forms += ["lt", "le", "gt", "ge", "range", "range", "closure"]
@@ -530,7 +554,7 @@ class PatGen:
     def pat(self, v, t, depth=0, by_ref=True):
         r = self.rng
         k = t[0]
-        if k in ("int", "bool", "string", "strref", "char", "f64"):
+        if k in ("int", "bool", "string", "strref", "char", "f64", "po"):
             return self.atom_pat(v, t, by_ref, at_root=(depth == 0))
         if r.random() < 0.06:
             self.use("wild")
